@@ -20,15 +20,19 @@ TECHNIQUE = "complete product of entry points x orders x nf x variants over a co
 LEVEL_TEXT = (
     "Every entry point of ekore's anomalous dimensions and matching elements is evaluated at each "
     "lattice point N and at conj N (and at real N); all components of the returned towers must be "
-    "complex conjugates (real) to 1e-10 relative."
+    "complex conjugates (real) to 1e-13 relative (measured: exactly 0)."
 )
 LEVEL_NOTE = (
-    "Decided on the lattice only (Talbot-contour points of both contours incl. the end point u=0.95, generic "
-    "points, near-real points, real points 0.5..41.5); interpreted mode (NUMBA_DISABLE_JIT=1)."
+    "Decided on the lattice only (Talbot-type contours r=1/2,o=0 and r=6.4/(1-ln x),o=1 incl. the end point u=0.95; eko's own "
+    "inversion contour r=6.4/(0.1-ln x), o=0|1 for x=1e-7..0.9; generic, near-real, next-to-N=1 points; real points 0.5..41.5 "
+    "and N=1 where the entry has no pole there); interpreted mode (NUMBA_DISABLE_JIT=1). A non-finite value carries the "
+    "location class of N in its signature (N=<integer> | real-non-integer-N | complex-N), so the recorded NaN of A_gq^(3) at "
+    "N=2 does not excuse a non-finite value anywhere else; an aggregate stays silent about a non-finite component only if "
+    "that component becomes finite once the non-finite leaf functions are made finite."
 )
 FLOOR_NONTRIVIAL = 50
 
-TOL = 1e-10
+TOL = 1e-13  # measured maximum (both tiers) is exactly 0.0: IEEE complex arithmetic commutes with conjugation
 L_LATTICE = [-3.0, 0.0, 1.7, 3.0]
 
 
@@ -39,10 +43,19 @@ def talbot(t, r, o):
     return complex(o + r * re, r * th)
 
 
+def eko_path(t, x, offset):
+    """The contour eko integrates on (eko.mellin.Path, written from its definition): r = 0.4*16/(0.1 - ln x), o = 0 | 1."""
+    return talbot(t, 0.4 * 16.0 / (0.1 - math.log(x)), 1.0 if offset else 0.0)
+
+
+# the dedicated N~1 branches are keyed on |Im N| < 1e-5 and |Re N - 1| < 1e-5: one conjugate pair inside, one outside
+NEAR_ONE = [complex(1.0, 5e-6), complex(1.0, 2e-5), complex(1.0 + 4e-6, 3e-6)]
+
+
 def n_lattice(thorough):
     pts = []
     ts = [0.55, 0.75, 0.95] if not thorough else [0.51, 0.55, 0.65, 0.75, 0.85, 0.95]
-    # non-singlet contour r=1/2, o=0; singlet contour o=1, r = 0.4*16/(1-ln x)
+    # Talbot-type contours: r=1/2, o=0 and o=1, r = 0.4*16/(1-ln x)
     for t in ts:
         pts.append(talbot(t, 0.5, 0.0))
         for x in [1e-7, 1e-2, 0.5] if thorough else [1e-7, 0.5]:
@@ -51,10 +64,47 @@ def n_lattice(thorough):
     pts += [1.5 + 0.5j, 2 + 10j, 7.3 + 3.1j, 30 + 40j, 0.7 + 0.2j, 2.0 + 1e-9j, 50 + 60j, 3.0 + 1e-3j]
     if thorough:
         pts += [1.2 + 0.05j, 4.0 + 0.5j, 15.5 + 20j, 14.0 + 1j, -0.5 + 2.5j, 1.0 + 3j, 100.0 + 5j]
+    # eko's own inversion contour (non-singlet o=0, singlet o=1) from small x to x=0.9 (|N| up to ~300, Re N << 0)
+    if thorough:
+        pts += [eko_path(t, x, o) for t in (0.55, 0.75, 0.95) for x in (1e-7, 1e-2, 0.9) for o in (0, 1)]
+    else:
+        pts += [eko_path(0.6, 1e-7, 0), eko_path(0.6, 0.9, 1), eko_path(0.9, 1e-7, 1), eko_path(0.9, 0.9, 0)]
+    # next to N=1 (inside and outside the window of the dedicated N~1 branches; off the pole for singlet-like entries)
+    pts += NEAR_ONE
     real = [0.5, 1.5, 2.0, 3.0, 3.7, 10.0, 41.5]
     if thorough:
         real += [1.25, 4.0, 5.0, 7.0, 16.0, 100.0]
     return pts, real
+
+
+POLARIZED = (".polarized.",)
+# eko's own N3LO valence part: "the exact expression (nf^2 part) has an nonphysical pole at N=1" (tests/.../test_as4.py)
+DOCUMENTED_POLE_AT_ONE = {
+    ("ekore.anomalous_dimensions.unpolarized.space_like.as4.gnsv", "gamma_nsv"),
+    ("ekore.anomalous_dimensions.unpolarized.space_like.as4.gnsv", "gamma_nss_nf2"),
+    ("ekore.anomalous_dimensions.unpolarized.space_like.as4", "gamma_valence_qed"),
+}
+NO_POLE_AT_ONE_TOWERS = {
+    "ad_us.gamma_ns", "ad_us.gamma_ns_qed", "ad_us.gamma_valence_qed", "ad_ut.gamma_ns", "ad_ps.gamma_ns", "ad_ps.gamma_singlet",
+    "ome_us.A_non_singlet", "ome_ut.A_non_singlet", "ome_ps.A_non_singlet", "ome_ps.A_singlet",
+}  # fmt: skip
+
+
+def regular_at_one(case):
+    """N = 1 is 'away from poles' for: every non-singlet / valence entry and every polarised entry. The unpolarised
+    singlet-like entries have their physical pole there; eko's own N3LO valence part a documented non-physical one."""
+    if case["entry"] == "fn":
+        if (case["module"], case["name"]) in DOCUMENTED_POLE_AT_ONE:
+            return False
+        if any(p in case["module"] for p in POLARIZED):
+            return True
+        nm = case["name"].lower()
+        return "ns" in nm or "valence" in nm
+    if case["entry"] not in NO_POLE_AT_ONE_TOWERS:
+        return False
+    if case["entry"].startswith("ad_us") and case["order"][0] >= 4 and not case.get("fhmruvv", True):
+        return not (case.get("mode") == 10200 or case["entry"] == "ad_us.gamma_valence_qed")
+    return True
 
 
 # --------------------------------------------------------------------------- entry points
@@ -200,18 +250,20 @@ FAMILY_OF_ENTRY = {
 }
 
 
-def blame_leaf(case, n, L):
-    """A non-finite value of an aggregate is attributed to a leaf function of the same family that is itself
-    non-finite at the same (N, L, nf) - so that one defect has one signature (the leaf's own case reports it)."""
+def blame_leaves(case, n, L):
+    """A non-finite value of an aggregate is attributed to the leaf functions of the same family that are themselves
+    non-finite at the same (N, L, nf) - so that one defect has one signature (the leaf's own case reports it).
+    Returns [(module, name)] (empty for a leaf)."""
     import itertools
 
     if case["entry"] == "fn":
         if _is_leaf(case["module"], case["name"]):
-            return None
+            return []
         fam = ".".join(case["module"].split(".")[:4])
     else:
         fam = FAMILY_OF_ENTRY[case["entry"].split(".")[0]]
     nfs = [case["nf"]] if case.get("nf") is not None else [3, 4, 5, 6]
+    out = []
     for mod, name, params in _discovered():
         if not mod.startswith(fam) or set(params) & TOWER_PARAMS or not _is_leaf(mod, name):
             continue
@@ -233,8 +285,54 @@ def blame_leaf(case, n, L):
             except Exception:  # noqa
                 continue
             if not np.all(np.isfinite(v)):
-                return f"{mod}.{name}"
-    return None
+                out.append((mod, name))
+                break
+    return out
+
+
+def not_inherited(case, n, L, leaves):
+    """Components of the aggregate that stay non-finite when every blamed leaf is made finite (its non-finite values
+    replaced by 0, in every ekore namespace the function is bound in; interpreted mode): those are NOT explained by the
+    leaves' own defects and are reported under the aggregate's signature. Returns a boolean mask for (f(N), f(conj N))."""
+    import importlib
+    import sys
+
+    def finite(fn):
+        def wrapped(*a, **kw):
+            with np.errstate(all="ignore"):
+                v = fn(*a, **kw)
+            if isinstance(v, np.ndarray):
+                return np.where(np.isfinite(v), v, 0.0)
+            return v if np.isfinite(v) else 0.0 * 1j
+
+        return wrapped
+
+    patched = []
+    try:
+        for mod, name in leaves:
+            orig = getattr(importlib.import_module(mod), name)
+            repl = finite(orig)
+            for mname, m in list(sys.modules.items()):
+                if m is None or not mname.startswith("ekore"):
+                    continue
+                for attr, val in list(vars(m).items()):
+                    if val is orig:
+                        patched.append((m, attr, orig))
+                        setattr(m, attr, repl)
+        with np.errstate(all="ignore"):
+            a = np.atleast_1d(np.asarray(call(case, n, L), dtype=np.complex128))
+            b = np.atleast_1d(np.asarray(call(case, n.conjugate(), L), dtype=np.complex128))
+    finally:
+        for m, attr, orig in patched:
+            setattr(m, attr, orig)
+    return ~(np.isfinite(a) & np.isfinite(b))
+
+
+def location(n):
+    """Discrete class of the Mellin moment (for signatures of non-finite values: where is the spurious pole)."""
+    if n.imag == 0:
+        return f"N={int(n.real)}" if n.real == int(n.real) else "real-non-integer-N"
+    return "complex-N"
 
 
 def _variant(case):
@@ -276,6 +374,9 @@ def evaluate(case):
     refused = 0
     comps = set()
     nonfinite_inherited = set()
+    n_nonfinite = 0
+    if has_N and regular_at_one(case):
+        real = [1.0] + real  # no pole at N=1: the dedicated N~1 branches are asked for a real value
     for L in Ls:
         for n in pts + [complex(x, 0.0) for x in real]:
             try:
@@ -294,16 +395,19 @@ def evaluate(case):
             nev += 1
             bad = ~(np.isfinite(a) & np.isfinite(b))
             if bad.any():
-                blamed = blame_leaf(case, n, L)
-                if blamed:
-                    nonfinite_inherited.add(blamed)
-                # one signature per component, independent of variant flags (one defect = one signature);
-                # an aggregate whose leaf is non-finite at the same point leaves the report to the leaf's case
-                for ix in zip(*np.nonzero(bad)) if not blamed else ():
+                n_nonfinite += 1
+                leaves = blame_leaves(case, n, L)
+                nonfinite_inherited.update(f"{m_}.{f_}" for m_, f_ in leaves)
+                # one signature per component and pole location, independent of variant flags (one defect = one
+                # signature); an aggregate whose leaves are non-finite at the same point leaves the report to the
+                # leaves' own cases - but only for the components that become finite once those leaves are finite
+                own = not_inherited(case, n, L, leaves) if leaves else bad
+                for ix in zip(*np.nonzero(bad & own)):
                     res.fail(
-                        f"{ename}/component={list(map(int, ix))}/non-finite",
+                        f"{ename}/component={list(map(int, ix))}/non-finite/at={location(n)}",
                         f"order={case.get('order')} nf={case.get('nf')} N={n} L={L} {_variant(case)}: "
-                        f"f(N)={a[ix]!r} f(conj N)={b[ix]!r}",
+                        f"f(N)={a[ix]!r} f(conj N)={b[ix]!r}"
+                        + (f" (still non-finite when the non-finite leaves {sorted(nonfinite_inherited)} are made finite)" if leaves else ""),
                     )
                 a = np.where(bad, 0.0, a)
                 b = np.where(bad, 0.0, b)
@@ -330,6 +434,8 @@ def evaluate(case):
         "evaluations": nev,
         "refused": refused,
         "nonzero_components": len(comps),
+        "nonfinite_points": n_nonfinite,
+        "real_N_equal_1": bool(has_N and regular_at_one(case)),
         "nonfinite_inherited_from": sorted(nonfinite_inherited),
     }
     res.nontrivial = nev > 0 and len(comps) > 0
@@ -414,14 +520,20 @@ def run(ctx):
     ctx.extra["function_evaluation_pairs"] = int(nev)
     ctx.extra["entries"] = len({c["entry"] for c in cases if c["entry"] != "fn"})
     ctx.extra["individual_functions"] = len({(c["module"], c["name"]) for c in cases if c["entry"] == "fn"})
+    ctx.extra["cases_with_real_N_1"] = int(sum(bool((r[1][3] or {}).get("real_N_equal_1")) for r in results))
+    ctx.extra["evaluation_points_with_a_nonfinite_component"] = int(sum((r[1][3] or {}).get("nonfinite_points", 0) for r in results))
     ctx.rule = (
         f"complete product of the 15 public entry points (unpolarised space-like QCD ns/singlet and QED "
         f"ns/singlet/valence, time-like, polarised; matching elements unpolarised incl. MSbar flag, time-like, "
         f"polarised) x order 1..4 (QED (1..4,1..2); time-like/polarised 1..3; OME 1..3, 1..2 polarised) x nf 3..6 "
         f"x N3LO variants (FHMRUVV var 0..2, eko's own var {'0..20' if th else '0,1,2,7,19'}) x sector modes; each "
-        f"case evaluates {len(pts)} complex N (both Talbot contours at u in "
-        f"{'0.51..0.95' if th else '0.55,0.75,0.95'}, generic, near-real, far) with their conjugates and "
-        f"{len(real)} real N, x L in {L_LATTICE} for matching elements; non-trivial = evaluated (not refused with "
+        f"case evaluates {len(pts)} complex N (two Talbot-type contours at u in "
+        f"{'0.51..0.95' if th else '0.55,0.75,0.95'}; eko's own Path contour r=6.4/(0.1-ln x) with and without offset, "
+        f"{'u in 0.55,0.75,0.95 x x in 1e-7,1e-2,0.9' if th else '4 points, x in 1e-7, 0.9'}; generic, near-real, far; "
+        f"{len(NEAR_ONE)} points next to N=1 inside/outside the 1e-5 window of the dedicated branches) with their conjugates and "
+        f"{len(real)} real N (+ N=1 for the {ctx.extra['cases_with_real_N_1']} cases whose entry has no pole there: non-singlet, "
+        f"valence, polarised; not eko's own N3LO valence part), x L in {L_LATTICE} for matching elements; tolerance {TOL:g} relative; "
+        f"non-trivial = evaluated (not refused with "
         f"NotImplementedError, e.g. nf=6 at N3LO) and at least one non-zero component. In addition every "
         f"individual function gamma_*/A_*/a_*/choose_* found by introspection in the two packages "
         f"({ctx.extra['individual_functions']} functions) is called with a fresh cache over the same lattice x nf x "
@@ -429,7 +541,10 @@ def run(ctx):
     )
     ctx.assumptions += [
         "relative deviation is measured per component against max(|component|, 1e-8 * largest component)",
-        "real N are passed as complex(x, +0.0) as the Mellin inversion does; poles (N=1,0,-1,..) are not on the lattice",
+        "real N are passed as complex(x, +0.0) as the Mellin inversion does; poles (N=0,-1,.., and N=1 for the unpolarised "
+        "singlet-like entries and eko's own N3LO valence part, documented) are not on the lattice",
+        "non-finite components are excluded from the measured maxima (set to 0 before the comparison) and reported under "
+        ".../non-finite/at=<location class of N>",
         "NotImplementedError is an accepted refusal (counted, not a violation)",
         "lattice decides the property on the lattice only",
     ]
